@@ -77,9 +77,17 @@ async def run_upload(flavor, p, cnt, v, sigs):
         # the server changes INITIAL_WINDOW_SIZE while the upload is in progress (RFC 9113 6.9.2: a decrease can make
         # the stream window negative; the sender must wait until it is positive again)
         script["actions"] = [{"when": ("head", 0), "do": "settings", "settings": {SC_IWS: p["iws_change"]}}]
+    if p.get("mfs_change") is not None:
+        # the server lowers MAX_FRAME_SIZE while a body chunk is being sent; the client has learnt the larger value
+        # before (a warm-up request on the same connection)
+        script["actions"] = script.get("actions", []) + [{"when": ("head", 1), "do": "settings",
+                                                           "settings": {SC_MFS: p["mfs_change"]}}]
     origin = endpoints.Origin(net, "o.test", 443, tls=True, alpn=["h2"], h2_script=script)
     pool = mk_pool(flavor, net, http2=True, max_connections=1)
     api = API(flavor, pool, net)
+    if p.get("mfs_change") is not None:
+        CALL.set("warm")
+        await guarded(flavor, lambda: api.request("GET", "https://o.test/warm", headers=[("X-Token", "warm")]))
     bodies = {}
     for i in range(p["n"]):
         bodies[f"u{i}"] = chunking(r, p["size"], p["chunking"])
@@ -110,7 +118,7 @@ async def run_upload(flavor, p, cnt, v, sigs):
             exhausted = True
     if exhausted:
         cnt["windows_exhausted"] += 1
-        sigs.add(f"up|{p['size']}|{p['chunking']}|{p['iws']}|{p['mfs']}|{p['policy']}|{p['n']}|{p.get('iws_change')}|{flavor}")
+        sigs.add(f"up|{p['size']}|{p['chunking']}|{p['iws']}|{p['mfs']}|{p['policy']}|{p['n']}|{p.get('iws_change')}|{p.get('mfs_change')}|{flavor}")
     cnt["oracle_progress"] += 1
     if out.kind == "hang":
         by = {r_.token.decode(): len(r_.body) for r_ in origin.requests if r_.token}
@@ -284,6 +292,8 @@ def plan(tier, seed):
                 chg = None
         params.append({"dir": "up", "size": size, "chunking": r.choice(["one", "1000", "70000", "mixed"]), "iws": iws, "mfs": mfs,
                        "policy": pol, "n": n, "seed": r.randrange(1 << 30), "iws_change": chg})
+        if mfs > 16384 and size >= 65536 and iws >= 65535 and chg is None and r.random() < 0.5 and pol != "dep":
+            params[-1]["mfs_change"] = r.choice([16384, 16384, 20000])
     downs = [0, 1, 65535, 1_000_000, 17 * 2 ** 20] + ([40 * 2 ** 20] if tier != "quick" else [])
     for size in downs:
         for dc in ([16384] if size > 2 ** 20 else [1, 16384] if size <= 65535 else [16384, 4000]):
